@@ -9,6 +9,18 @@ NOTE_COMMON = ("Trusted: Lean 4.33 kernel; axioms propext/Classical.choice/Quot.
                "differential execution (sampling, not proof); harness, generators and the cfg(sentinel_verif) hooks; std, lru, serde are not modelled.")
 
 CLAIMS = {
+ "C10": dict(
+    category="proof",
+    text=("run_refines_ref: for every family (flow, breaker, hotspot, isolation, system) and every sequence of load-all / load-for-resource / append / clear / clear-resource calls of any "
+          "length, over any pool of valid, invalid and duplicate-but-differently-identified rules, the rules the manager reports/enforces equal the reference map (valid rules of the most "
+          "recent replacement plus later appends) as a set under rule equality; rel_step is the one-step preservation, including the 'unchanged' shortcuts (set comparison; the system "
+          "manager's order-sensitive Vec comparison). Clauses: append_keeps_existing, append_adds, invalid_append_ignored, load_enforces_only_valid, load_res_frame, reload_reports_unchanged. "
+          "Model (Sentinel/Manager.lean) tied to the five rule_manager.rs files by differential execution of random operation sequences with reads after every call (for breakers also the rules "
+          "bound to the breakers actually held) and admission probes for flow and isolation; the reference map is evaluated on the implementation's own reports and return values."),
+    design_ref="DESIGN.md §6 C10",
+    technique="Lean 4 refinement proof (manager state vs reference map, induction over operation sequences) + differential correspondence + reference-map Spec oracle on implementation traces",
+    note=NOTE_COMMON + " Rule identity: hash collisions between different ids are assumed away (a rule given under two ids may be kept once or twice, as the property allows). Validity of a parameter set is a key convention here; "
+         "the validity checks are C12. Found and fixed with this check: D3 (append dropped active controllers/breakers, three families) and D4 (append of an invalid rule on a fresh resource panicked and poisoned the map) — fix: commits c3fcc96, 6426e15, 49e63f6; witnesses in corpus/C10."),
  "C08": dict(
     category="translation_validation",
     text=("PARTIAL. Proved in Lean: structural theorems about the executable warm-up calculator for every state/threshold/clock (sync_stored_le_max, sync_once_per_second, sync_idempotent, "
